@@ -127,9 +127,6 @@ def check(run, prog, tier):
     canc = prog.lookup_method(COL, "cancel")
     cc = {fi.qual for fi, r, e in scan.callers_of(canc.qual)} if canc else set()
     run.ob("U2", f"{COL}:nobody-cancels-a-collector", not cc, loc(canc or init), f"cancel() callers: {sorted(cc) or 'none'} (a cancelled collector would drop its entries)")
-    # positive control for the who-may-call query
-    pos = {fi.qual for fi, r, e in scan.callers_of(qs.qual)}
-    run.floor("U5-query-control", len(pos), 3)
     # other writers of send_queues
     w = {fi.qual for fi, r, e in scan.all() if (e.kind == "store" and e.target is not None and contains(e.target, lambda s: s[0] == "attr" and s[2] == "send_queues")
                                                   and fi.name != "__init__") or (e.kind == "call" and e.attrname in ("pop", "clear", "update", "setdefault") and e.recv is not None
@@ -144,3 +141,6 @@ def check(run, prog, tier):
         run.ob("U5", f"{fi.qual}:uses-send_sd", fi.qual == qs.qual, loc(fi, e.node),
                f"{fi.qual} references sd.send_sd" + ("" if fi.qual == qs.qual else " directly: entries sent this way bypass collection (order / batching per destination lost)"))
     run.floor("U5", n, 1)
+    # positive control for the who-may-call query: queue_send itself has callers
+    pos = {fi.qual for fi, r, e in scan.callers_of(qs.qual)}
+    run.floor("U5-query-control", len(pos), 1)
